@@ -38,11 +38,14 @@ const c02Setup = `(do
   (def p9 ())
   (def p10 [[1 2] [3 4] [5 6]])
   (def p11 {:a [1 {:b [2 3]}] :m {:v [7 8]}})
+  (def p12 (vec (rest (rest (rest '(1 2 3))))))
+  (def p13 ((fn [& more] (vec more))))
+  (def p14 (hash-set "a" "b" "c"))
   (defmacro m-conj (fn [xs y] (list 'conj xs y)))
   (defmacro m-splice (fn [xs ys] (list 'concat xs ys)))
   nil)`
 
-var c02SeedTypes = []string{"vec", "vec", "list", "vec", "map", "set", "list", "vec", "vec", "list", "vec2", "map2"}
+var c02SeedTypes = []string{"vec", "vec", "list", "vec", "map", "set", "list", "vec", "vec", "list", "vec2", "map2", "vec", "vec", "set"}
 
 type strTable struct{ K, V []string }
 
@@ -224,10 +227,12 @@ func (g *c02Gen) next(prefix string) *c02Op {
 		"dissoc", "rest", "vec", "seq", "take", "drop", "take-last", "drop-last", "merge", "rename-keys", "with-meta", "assoc-in", "update", "update-in",
 		"apply-conj", "apply-concat", "map", "qq-splice", "qq-splice2", "qq-vec", "closure-conj", "macro-conj", "macro-splice",
 		"concat-empty-head", "concat-empty-head2", "apply-concat-empty-head", "update-in-vec", "assoc-in-vec", "update-in-mixed", "assoc-in-mixed", "update-vec",
-		"map-rest-retain", "apply-rest-retain", "reduce-rest-retain"}
+		"map-rest-retain", "apply-rest-retain", "reduce-rest-retain",
+		"drain-vec", "drain-rest", "rest-param-vec", "dissoc-multi", "dissoc-multi-set", "dissoc-multi-present", "catch-poolname", "let-shadow-poolname"}
 	weights := []int{8, 3, 2, 6, 2, 5, 2, 2, 2, 2, 1, 1, 1, 3, 3, 2, 1, 1, 1, 1, 1, 1, 2, 1, 1, 2, 3, 2, 1, 4, 3, 2, 2, 2, 2,
 		3, 2, 2, 3, 2, 2, 2, 2,
-		2, 1, 1}
+		2, 1, 1,
+		3, 2, 2, 3, 2, 1, 2, 1}
 	kind := kinds[g.tp.Weighted(LaneWork, weights)]
 	var src, typ string
 	var parents []*c02Val
@@ -336,6 +341,31 @@ func (g *c02Gen) next(prefix string) *c02Op {
 		v := g.pick("vec2")
 		parents = append(parents, v)
 		src, typ = "(update "+v.Name+" 2 (fn [x] (conj x "+k+")))", "vec2"
+	case "drain-vec":
+		// an empty vector cut out of a longer sequence: its slice may keep spare capacity
+		src, typ = "(vec (rest (rest (rest (take 3 "+seq().Name+")))))", "vec"
+	case "drain-rest":
+		src, typ = "(vec (drop 9 "+seq().Name+"))", "vec"
+	case "rest-param-vec":
+		src, typ = "((fn [a & more] (vec more)) "+k+")", "vec"
+	case "dissoc-multi":
+		// first key absent, later key present
+		src, typ = "(dissoc "+mp().Name+" :zz-absent"+k+" :a :b)", "map"
+	case "dissoc-multi-set":
+		v := g.pick("set")
+		parents = append(parents, v)
+		src, typ = "(dissoc "+v.Name+" \"zz-absent\" \"a\" \"b\")", "set"
+	case "dissoc-multi-present":
+		src, typ = "(dissoc "+mp().Name+" :a :zz-absent :b)", "map"
+	case "catch-poolname":
+		// the catch symbol has the name of a pool value: the binding it shadows must be untouched afterwards
+		v := g.pick("vec", "list", "map")
+		parents = append(parents, v)
+		src, typ = "(try (throw "+k+") (catch "+v.Name+" (list "+v.Name+" "+k+")))", "list"
+	case "let-shadow-poolname":
+		v := g.pick("vec", "list", "map")
+		parents = append(parents, v)
+		src, typ = "(let ["+v.Name+" (list "+k+")] (conj "+v.Name+" 1))", "list"
 	case "map-rest-retain":
 		// the rest list of a variadic callback is kept while map goes on: what was stored must not change
 		src, typ = "(let [acc (atom [])] (map (fn [& xs] (do (swap! acc conj xs) (snap! @acc) xs)) "+seq().Name+"))", "list"
